@@ -1550,17 +1550,30 @@ where
     }
 }
 
+/// Whether an object literal has the option, however the key is written.
+fn object_has_option(object: &ObjectLit, name: &'static str) -> bool {
+    let is_named = |key: &PropName| match key {
+        PropName::Ident(ident) => ident.sym == name,
+        PropName::Str(str) => str.value == name,
+        _ => false,
+    };
+    object.props.iter().any(|prop| match prop {
+        PropOrSpread::Prop(prop) => match &**prop {
+            Prop::KeyValue(KeyValueProp { key, .. })
+            | Prop::Getter(GetterProp { key, .. })
+            | Prop::Method(MethodProp { key, .. }) => is_named(key),
+            Prop::Shorthand(ident) => ident.sym == name,
+            _ => false,
+        },
+        PropOrSpread::Spread(..) => false,
+    })
+}
+
 /// Whether the options object literal of a `defineComponent` call already has the option.
 fn has_define_component_option(call: &CallExpr, name: &'static str) -> bool {
     match call.args.get(1) {
         Some(ExprOrSpread { spread: None, expr }) => match &**expr {
-            Expr::Object(object) => object.props.iter().any(|prop| {
-                prop.as_prop()
-                    .and_then(|prop| prop.as_key_value())
-                    .and_then(|key_value| key_value.key.as_ident())
-                    .map(|ident| ident.sym == name)
-                    .unwrap_or_default()
-            }),
+            Expr::Object(object) => object_has_option(object, name),
             _ => false,
         },
         _ => false,
@@ -1621,19 +1634,20 @@ fn inject_define_component_option(call: &mut CallExpr, name: &'static str, value
 
     match options.map(|options| &mut *options.expr) {
         Some(Expr::Object(object)) => {
-            if !object.props.iter().any(|prop| {
-                prop.as_prop()
-                    .and_then(|prop| prop.as_key_value())
-                    .and_then(|key_value| key_value.key.as_ident())
-                    .map(|ident| ident.sym == name)
-                    .unwrap_or_default()
-            }) {
-                object
+            if !object_has_option(object, name) {
+                // what the user spreads into the options comes later and wins
+                let index = object
                     .props
-                    .push(PropOrSpread::Prop(Box::new(Prop::KeyValue(KeyValueProp {
+                    .iter()
+                    .position(|prop| prop.is_spread())
+                    .unwrap_or(object.props.len());
+                object.props.insert(
+                    index,
+                    PropOrSpread::Prop(Box::new(Prop::KeyValue(KeyValueProp {
                         key: PropName::Ident(quote_ident!(name)),
                         value: Box::new(value),
-                    }))));
+                    }))),
+                );
             }
         }
         Some(..) => {
